@@ -128,27 +128,29 @@ Definition comment_merges (c : comment) (prev : char) : bool :=
 
 (* push_token.  `sepfix = false` is the code before commit 9420374 (finding F40: a leading comment was
    written directly behind the previous token: `-` `-- c` gave `--- c`). *)
+Definition sep_before_comment (sepfix : bool) (b0 : buffer) (lead : list comment) : buffer :=
+  match last_char (b_rev b0), lead with
+  | Some prev, c :: _ => if sepfix && comment_merges c prev then push b0 [PBlank 32] else b0
+  | _, _ => b0
+  end.
+Definition push_leading (b : buffer) (t : token) : option buffer :=
+  match t_lead t with
+  | [] => Some b
+  | [c] => if on_token_line c t then Some (push b [fmt_comment c; PBlank 32]) else fmt_leading b [c]
+  | cs => fmt_leading b cs
+  end.
+Definition push_text_trailing (b1 : buffer) (t : token) : buffer :=
+  let b2 := push b1 [PLex t] in
+  match t_trail t with
+  | Some c => set_extra (push b2 [PBlank 32; fmt_comment c]) true
+  | None => b2
+  end.
 Definition push_token_gen (sepfix : bool) (b : buffer) (t : token) : option buffer :=
   let b0 := set_extra (if b_extra b then line_break b else b) false in
-  let b0 :=
-    match last_char (b_rev b0), t_lead t with
-    | Some prev, c :: _ => if sepfix && comment_merges c prev then push b0 [PBlank 32] else b0
-    | _, _ => b0
-    end in
-  let lead :=
-    match t_lead t with
-    | [] => Some b0
-    | [c] => if on_token_line c t then Some (push b0 [fmt_comment c; PBlank 32]) else fmt_leading b0 [c]
-    | cs => fmt_leading b0 cs
-    end in
-  match lead with
+  let b1 := sep_before_comment sepfix b0 (t_lead t) in
+  match push_leading b1 t with
   | None => None
-  | Some b1 =>
-    let b2 := push b1 [PLex t] in
-    Some (match t_trail t with
-          | Some c => set_extra (push b2 [PBlank 32; fmt_comment c]) true
-          | None => b2
-          end)
+  | Some b2 => Some (push_text_trailing b2 t)
   end.
 Definition push_token := push_token_gen true.
 Definition push_token_old := push_token_gen false.
@@ -173,6 +175,15 @@ Fixpoint run_ops (b : buffer) (l : list op) : option buffer :=
   | [] => Some b
   | o :: r => match run_op b o with Some b' => run_ops b' r | None => None end
   end.
+(* the same with the push_token of before commit 9420374 (for the refutation of the old behaviour) *)
+Fixpoint run_ops_old (b : buffer) (l : list op) : option buffer :=
+  match l with
+  | [] => Some b
+  | OTok t :: r => match push_token_old b t with Some b' => run_ops_old b' r | None => None end
+  | OSep s :: r => match run_sop b s with Some b' => run_ops_old b' r | None => None end
+  end.
+Definition render_ops_old (l : list op) : option (list char) :=
+  match run_ops_old buf0 l with Some b => Some (pieces_text (rev_append (b_rev b) [])) | None => None end.
 Definition render_pieces (l : list op) : option (list piece) :=
   match run_ops buf0 l with Some b => Some (rev_append (b_rev b) []) | None => None end.   (* = rev (b_rev b), linear *)
 Definition render_ops (l : list op) : option (list char) :=
@@ -324,14 +335,36 @@ Fixpoint attached_keys (fuel : nat) (ps : list piece) : list (bool * list char) 
     end
   end.
 Definition ckey_flat (k : bool * list char) : list N := (if fst k then 1 else 0) :: N.of_nat (length (snd k)) :: snd k.
-Definition all_attached (ps : list piece) : bool :=
-  leqb (flat_map ckey_flat (attached_keys (S (length ps)) ps)) (flat_map ckey_flat (gap_keys ps)).
+Definition key_eq_dec : forall a b : bool * list char, {a = b} + {a <> b}.
+Proof. decide equality; [apply (list_eq_dec N.eq_dec)|apply bool_dec]. Defined.
+Definition keys_eqb (a b : list (bool * list char)) : bool := if list_eq_dec key_eq_dec a b then true else false.
+Definition all_attached (ps : list piece) : bool := keys_eqb (attached_keys (S (length ps)) ps) (gap_keys ps).
 
 (* the separator discipline of a trace, and of a token/separator list *)
 Definition ops_sep_ok (l : list op) : bool :=
   match render_pieces l with Some ps => pieces_ok None ps && all_attached ps | None => false end.
 Definition sep_ok_from (s0 : sep) (l : list (token * sep)) : bool := ops_sep_ok (trace_of s0 l).
 Definition sep_ok (l : list (token * sep)) : bool := sep_ok_from [] l.
+
+(* ---------- traces over token ids (what a formatter run records: `format_token_id(id)`) ---------- *)
+Inductive iop := ITok (i : nat) | ISep (s : sop).
+Definition trace_ids (tr : list iop) : list nat :=
+  flat_map (fun o => match o with ITok i => [i] | ISep _ => [] end) tr.
+Fixpoint inst_trace (ts : list token) (tr : list iop) : option (list op) :=
+  match tr with
+  | [] => Some []
+  | ITok i :: r =>
+    match nth_error ts i, inst_trace ts r with
+    | Some t, Some l => Some (OTok t :: l)
+    | _, _ => None
+    end
+  | ISep s :: r => match inst_trace ts r with Some l => Some (OSep s :: l) | None => None end
+  end.
+(* the trace checker: the ids 0 .. n-1 each exactly once, in order; separators satisfy sep_ok *)
+Definition ids_in_order (n : nat) (tr : list iop) : bool :=
+  if list_eq_dec Nat.eq_dec (trace_ids tr) (seq 0 n) then true else false.
+Definition trace_check (ts : list token) (tr : list iop) : bool :=
+  ids_in_order (length ts) tr && match inst_trace ts tr with Some l => ops_sep_ok l | None => false end.
 
 (* ---------- which tokens the round-trip theorem covers ---------- *)
 Definition delim_kind (k : kind) : bool :=
